@@ -446,7 +446,7 @@ pub fn generate(ctx: &mut GenCtx) {
             match ctx.rng.below(10) {
                 0 => o.sink = SinkKind::Short(ctx.rng.range(1, 3)),
                 1 => o.sink = SinkKind::BufW,
-                2 => o.sink = SinkKind::Fail(*ctx.rng.pick(&[0usize, 1, 2, 5, 17, 64, 200, 1000, 100000])),
+                2 => o.sink = SinkKind::Fail(*ctx.rng.pick(&[0usize, 1, 17, 64, 200, 500, 1000, 3000, 100000])),
                 _ => {}
             }
             if ctx.rng.chance(1, 12) {
@@ -484,6 +484,17 @@ pub fn generate(ctx: &mut GenCtx) {
             // 3. reader differential on the real output and on single-edit mutants of it; the grammar
             // reader on the real output against the quads it was produced from
             if !outside && k < 6 {
+                if o.ascii {
+                    // pure-ASCII output (once the mode exists): same two differentials on it
+                    let asc = Opts { sink: SinkKind::Vec, ..o };
+                    if let Ok(Ok(txt)) = catch(|| serialize_with(&qs, &asc)) {
+                        if let Ok(txt) = String::from_utf8(txt) {
+                            emit_rd(ctx, &asc, &txt, &qs);
+                            ctx.emit(&format!("p {} {}", if nt { "nt" } else { "nq" }, hex(&txt)));
+                            ctx.stats.bump("doc.ascii_output");
+                        }
+                    }
+                }
                 let plain = Opts { sink: SinkKind::Vec, ascii: false, ..o };
                 if let Ok(Ok(txt)) = catch(|| serialize_with(&qs, &plain)) {
                     let Ok(txt) = String::from_utf8(txt) else { continue };
@@ -856,10 +867,6 @@ fn serialize_with(qs: &[Q], o: &Opts) -> Result<Vec<u8>, String> {
     }
 }
 
-fn serialize(qs: &[Q], nq: bool) -> Result<Vec<u8>, String> {
-    serialize_with(qs, &Opts::plain(nq))
-}
-
 fn parse(txt: &str, which: &str) -> Result<Vec<Q>, String> {
     let mut out: Vec<Q> = vec![];
     match which {
@@ -1208,10 +1215,10 @@ pub fn exec(line: &str) -> String {
                 Ok(Err(_)) => return "q=err back=err".into(),
                 Ok(Ok(x)) => buf = x,
             }
-            if buf.len() < 2 || buf[0] != b'"' || buf[buf.len() - 1] != b'"' {
-                return format!("q=unquoted:{} back=unquoted", hex_bytes(&buf));
-            }
-            let inner = &buf[1..buf.len() - 1];
+            // what comes back is decided by the parser alone; the spelling (`q=`, compared with the model's
+            // bytes) is not part of the oracle: a still-valid respelling such as an explicit ^^xsd:string
+            // must not turn into a failing input
+            let shape_ok = buf.len() >= 2 && buf[0] == b'"' && buf[buf.len() - 1] == b'"';
             let mut doc = b"<x:s> <x:p> ".to_vec();
             doc.extend_from_slice(&buf);
             doc.extend_from_slice(b" .\n");
@@ -1219,7 +1226,8 @@ pub fn exec(line: &str) -> String {
                 Err(_) => "utf8".to_string(),
                 Ok(d) => match catch(move || parse(&d, "nt")) {
                     Ok(Ok(qs)) if qs.len() == 1 => match &qs[0].o {
-                        T::Lit(l, _) => hex(l),
+                        T::Lit(l, dt) if dt == "http://www.w3.org/2001/XMLSchema#string" => hex(l),
+                        T::Lit(..) => "datatype".into(),
                         _ => "kind".into(),
                     },
                     Ok(Ok(_)) => "count".into(),
@@ -1227,6 +1235,10 @@ pub fn exec(line: &str) -> String {
                     Err(_) => "panic".into(),
                 },
             };
+            if !shape_ok {
+                return format!("q=unquoted:{} back={}", hex_bytes(&buf), back);
+            }
+            let inner = &buf[1..buf.len() - 1];
             format!("q={} back={}", hex_bytes(inner), back)
         }
         _ => "bad-op".into(),
